@@ -152,7 +152,7 @@ theorem MInv_step (U0 : UFInv m sPar0 rep d) (F : FInv m sy sPar0 rep forest0)
       · simp at hk; subst hk; simpa [dummy] using h0
   · -- stabilizer that already belongs to a tree
     have h0 : sPar0 s ≠ -1 := fun h => hfresh ((I.fresh_iff s).mpr h)
-    obtain ⟨par', hfr, U', hf', hr'⟩ := findRoot_spec I.uf hfresh
+    obtain ⟨par', hfr, U', hf', hr', _⟩ := findRoot_spec I.uf hfresh
     have hrep_root : sPar0 (rep s) = (rep s : Int) := U0.rep_root s h0
     obtain ⟨c0, hc0, hc0r⟩ := (F.roots_iff (rep s)).mpr hrep_root
     have hne1 : ¬ ((rep s : Int) = -1) := by omega
